@@ -292,6 +292,11 @@ Fixpoint go_bad_esc (bs : list Z) : bool :=
     else go_bad_esc r
   end.
 
+(* decode an implementation OUTPUT as a struct; the count-safe skip runs first, so that a garbage element count in a malformed output
+   cannot make the decoder build an astronomically long loop *)
+Definition safe_decode (out : list Z) : option tval :=
+  match skip_go T_STRUCT out with Some [] => decode_all T_STRUCT out | _ => None end.
+
 Definition res_eqb (a b : Z * list Z) : bool := Bool.eqb (fst a =? 0) (fst b =? 0) && ((negb (fst a =? 0)) || bytes_eqb (snd a) (snd b)).
 
 (* the verdict on one document: [nats] = (err, output) of the native flavours that were run, [p] = (err, output) of the portable converter *)
@@ -311,7 +316,7 @@ Definition judge_1801 (ds : jdefs) (root ob : Z) (doc : list Z) (nats : list (Z 
     else if has K_CONTRA cls then VBad 3 []                                    (* a kind-contradicting document was accepted *)
     else if negb nerr && negb perr && bytes_eqb on op then
       (* all accept with identical bytes; the output must at least be a well-formed struct *)
-      match decode_all T_STRUCT on with Some v => expect 5 (wf v) [] | None => VBad 5 [] end
+      match safe_decode on with Some v => expect 5 (wf v) [] | None => VBad 5 [] end
     else
       (* native and portable disagree *)
       if has K_OTHER cls then VDrift 1
@@ -319,19 +324,23 @@ Definition judge_1801 (ds : jdefs) (root ob : Z) (doc : list Z) (nats : list (Z 
       else if negb nerr && perr then (if go_bad_esc doc then VKnown 1802 else VBad 2 [])
       else if nerr && negb perr then (if has K_NULLREQ cls && negb (o_wreq o) then VKnown 1801 else VBad 2 [])
       else
-        match pj, decode_all T_STRUCT on, decode_all T_STRUCT op with
+        match pj, safe_decode on, safe_decode op with
         | Some j, Some vn, Some vp =>
-          (* both accept, different bytes: apply the quirk models the document is eligible for, one after the other, to the native
-             output; the result must be EXACTLY the portable output; the finding reported is the first quirk that changed something *)
+          (* both accept, different bytes: apply the quirk models the document is eligible for to the native output; the result must
+             be EXACTLY the portable output; the finding reported is the first quirk that changed something *)
           let fuel := S (length doc) in
+          let nz := has K_NEGZ cls in
+          let same (v : tval) := bytes_eqb (encode (if nz then norm_negz v else v)) (if nz then encode (norm_negz vp) else op) in
+          (* without the null-member quirk (finding 1801 is repaired in the tree): big-integer quirk, then sign of zero *)
+          let vb := if has K_BIGINT cls then quirk false true fuel ds (JStruct root) j vn else vn in
+          if same vb then
+            (if negb (bytes_eqb (encode vb) (encode vn)) then VKnown 1806 else if nz then VKnown 1803 else VBad 2 [])
+          else
+          (* with the null-member quirk first *)
           let v1 := if has K_NULLK cls then quirk true false fuel ds (JStruct root) j vn else vn in
           let v2 := if has K_BIGINT cls then quirk false true fuel ds (JStruct root) j v1 else v1 in
-          let nz := has K_NEGZ cls in
-          if bytes_eqb (encode (if nz then norm_negz v2 else v2)) (if nz then encode (norm_negz vp) else op) then
-            (if negb (bytes_eqb (encode v1) (encode vn)) then VKnown 1801
-             else if negb (bytes_eqb (encode v2) (encode v1)) then VKnown 1806
-             else if nz then VKnown 1803 else VBad 2 [])
-          else VBad 2 [FB (encode v2)]
+          if same v2 && negb (bytes_eqb (encode v1) (encode vn)) then VKnown 1801
+          else VBad 2 [FB (encode vb)]
         | _, _, _ => VBad 2 []
         end
   end.
